@@ -24,6 +24,10 @@ type Body struct {
 	Op string `json:"op"` // tag | pass | fail | graph
 	ID int    `json:"id,omitempty"`
 	G  *Graph `json:"g,omitempty"`
+	// fail only: the natively streaming forms (Stream / Transform) return their reader and report
+	// the failure as an error item after *After chunks of what a tag body would have produced;
+	// the other native forms fail at call time (nil: every form fails at call time)
+	After *int `json:"after,omitempty"`
 }
 
 type Node struct {
@@ -31,7 +35,10 @@ type Node struct {
 	Body   Body   `json:"body"`
 	Native string `json:"native,omitempty"` // subset of "isct": natively implemented paradigms ("" = "i")
 	Chunks []int  `json:"chunks,omitempty"` // how a streaming form splits its output (sizes-1)
-	InKey  string `json:"inKey,omitempty"`  // compose.WithInputKey: the lambda takes input[InKey] (a string)
+	InKey  string `json:"inKey,omitempty"`  // compose.WithInputKey: the lambda takes input[InKey] (a string); on a pass node: it hands on input[InKey]
+	// the lambda's Go input type is string and it has NO input key: its only predecessor is a
+	// pass node with InKey == SIn, which hands it the string (in the model the value stays under its key)
+	SIn    string `json:"sIn,omitempty"`
 	OutKey string `json:"outKey,omitempty"` // compose.WithOutputKey: the lambda returns a string, seen as {OutKey: s}
 	// with OutKey: the lambda's Go output type is the typed map map[string]string{"v": s} instead of
 	// the string s (a nested typed map under the output key; rendered as s, so the model is unchanged)
@@ -55,6 +62,10 @@ type Graph struct {
 	Nodes       []Node      `json:"nodes"`
 	Edges       [][2]string `json:"edges"`
 	Branches    []Branch    `json:"branches,omitempty"`
+	// built with compose.NewChain instead of compose.NewGraph (BuildChain): the stages in order,
+	// one node key = Append<Node>, several = AppendParallel of nodes with output keys. Edges must
+	// be the edges such a chain has (the model reads Edges only).
+	Stages [][]string `json:"stages,omitempty"`
 }
 
 type M = map[string]any
@@ -200,6 +211,26 @@ type noopCompileCB struct{}
 
 func (noopCompileCB) OnFinish(ctx context.Context, info *compose.GraphInfo) {}
 
+// nodeFunc: the M → M function of a tag / fail node (a fail node that breaks in the middle of
+// its stream computes the tag body: its non-streaming forms fail on their own, see midOf).
+func nodeFunc(n Node, path string, bo *BuildOpts) (func(ctx context.Context, in M) (M, error), func(chunks []M) *schema.StreamReader[M]) {
+	f := func(ctx context.Context, in M) (M, error) {
+		record(ctx, path, in)
+		if n.Body.Op == "fail" && n.Body.After == nil {
+			return nil, &UserErr{ID: n.Body.ID}
+		}
+		return TagBody(n.Key, in), nil
+	}
+	if bo != nil && bo.Wrap != nil {
+		f = bo.Wrap(path, f)
+	}
+	var produce func(chunks []M) *schema.StreamReader[M]
+	if bo != nil && bo.Produce != nil {
+		produce = func(chunks []M) *schema.StreamReader[M] { return bo.Produce(path, chunks) }
+	}
+	return f, produce
+}
+
 // Build constructs the compose graph of a case. The first error of an Add* call is returned.
 func Build(g *Graph, prefix string, bo *BuildOpts) (*compose.Graph[M, M], error) {
 	cg := compose.NewGraph[M, M]()
@@ -209,7 +240,11 @@ func Build(g *Graph, prefix string, bo *BuildOpts) (*compose.Graph[M, M], error)
 		var err error
 		switch n.Body.Op {
 		case "pass":
-			err = cg.AddPassthroughNode(n.Key)
+			if n.InKey != "" {
+				err = cg.AddPassthroughNode(n.Key, compose.WithInputKey(n.InKey))
+			} else {
+				err = cg.AddPassthroughNode(n.Key)
+			}
 		case "graph":
 			var sub *compose.Graph[M, M]
 			sub, err = Build(n.Body.G, path, bo)
@@ -217,20 +252,7 @@ func Build(g *Graph, prefix string, bo *BuildOpts) (*compose.Graph[M, M], error)
 				err = cg.AddGraphNode(n.Key, sub, compose.WithGraphCompileOptions(CompileOpts(n.Body.G)...))
 			}
 		default:
-			f := func(ctx context.Context, in M) (M, error) {
-				record(ctx, path, in)
-				if n.Body.Op == "fail" {
-					return nil, &UserErr{ID: n.Body.ID}
-				}
-				return TagBody(n.Key, in), nil
-			}
-			if bo != nil && bo.Wrap != nil {
-				f = bo.Wrap(path, f)
-			}
-			var produce func(chunks []M) *schema.StreamReader[M]
-			if bo != nil && bo.Produce != nil {
-				produce = func(chunks []M) *schema.StreamReader[M] { return bo.Produce(path, chunks) }
-			}
+			f, produce := nodeFunc(n, path, bo)
 			err = addKeyedLambda(cg, n, f, produce)
 		}
 		if err != nil {
